@@ -1177,3 +1177,463 @@ def replay_history(args):
     if fn is None:
         return True, "unknown replay kind %r" % kind
     return fn(args)
+
+
+# ================================================================================================
+# static analysis helpers (AST of the real sources, re-read on every run)
+# ================================================================================================
+def tt_mro(cls):
+    cls = heap.real_class(cls)
+    return [k for k in cls.__mro__ if k.__module__.startswith("torchtree")]
+
+
+def _fn_ast(fn):
+    try:
+        src = textwrap.dedent(inspect.getsource(fn))
+        node = ast.parse(src).body[0]
+        return node if isinstance(node, (ast.FunctionDef, ast.AsyncFunctionDef)) else None
+    except (OSError, TypeError, SyntaxError, IndexError):
+        return None
+
+
+def resolved_functions(cls):
+    """name -> (defining class, function, kind) for plain methods and property getters, resolved through the MRO"""
+    out = {}
+    for k in reversed(tt_mro(cls)):
+        for name, v in k.__dict__.items():
+            if isinstance(v, property) and v.fget is not None:
+                out[name] = (k, v.fget, "property")
+            elif inspect.isfunction(v):
+                out[name] = (k, v, "method")
+            elif isinstance(v, (classmethod, staticmethod)):
+                out.pop(name, None)
+    return out
+
+
+def _is_self_attr(node, attr=None):
+    return isinstance(node, ast.Attribute) and isinstance(node.value, ast.Name) and node.value.id == "self" and (attr is None or node.attr == attr)
+
+
+def _assigned_self_attrs(nodes):
+    out = set()
+    for n in nodes:
+        for x in ast.walk(n):
+            targets = []
+            if isinstance(x, ast.Assign):
+                targets = x.targets
+            elif isinstance(x, (ast.AugAssign, ast.AnnAssign)):
+                targets = [x.target]
+            for t in targets:
+                for y in ast.walk(t):
+                    if _is_self_attr(y) and isinstance(y.ctx, ast.Store):
+                        out.add(y.attr)
+    return out
+
+
+def _self_calls(nodes):
+    out = set()
+    for n in nodes:
+        for x in ast.walk(n):
+            if isinstance(x, ast.Call) and _is_self_attr(x.func):
+                out.add(x.func.attr)
+    return out
+
+
+def find_cached_getters(cls):
+    """[(getter name, flag, defining class, kind)]: functions containing `if self.<flag>: ...; self.<flag> = False`
+    (the reset may be in the if-body or in a method the body calls)"""
+    fns = resolved_functions(cls)
+    found = []
+    for name, (k, fn, kind) in sorted(fns.items()):
+        if name in ("__init__",) or name in heap.HANDLERS:
+            continue
+        node = _fn_ast(fn)
+        if node is None:
+            continue
+        for x in ast.walk(node):
+            if isinstance(x, ast.If) and _is_self_attr(x.test):
+                flag = x.test.attr
+                cleared = False
+                for st in x.body:
+                    for y in ast.walk(st):
+                        if isinstance(y, ast.Assign) and any(_is_self_attr(t, flag) for t in y.targets) \
+                                and isinstance(y.value, ast.Constant) and y.value.value is False:
+                            cleared = True
+                if cleared:
+                    found.append((name, flag, k, kind))
+    return found
+
+
+def dirty_flags(cls):
+    return sorted({f for _, f, _, _ in find_cached_getters(cls)})
+
+
+def cache_attrs(cls):
+    """attributes written while recomputing (inside a guarded `if self.<flag>` body or in methods it calls)"""
+    fns = resolved_functions(cls)
+    out, todo, seen = set(), [], set()
+    for name, flag, k, kind in find_cached_getters(cls):
+        node = _fn_ast(fns[name][1])
+        for x in ast.walk(node):
+            if isinstance(x, ast.If) and _is_self_attr(x.test, flag):
+                out |= _assigned_self_attrs(x.body)
+                todo.extend(_self_calls(x.body))
+    while todo:
+        m = todo.pop()
+        if m in seen or m not in fns:
+            continue
+        seen.add(m)
+        node = _fn_ast(fns[m][1])
+        if node is None:
+            continue
+        out |= _assigned_self_attrs(node.body)
+        todo.extend(_self_calls(node.body))
+    return out - set(dirty_flags(cls))
+
+
+def handler_chain(cls, hname):
+    """[(defining class, FunctionDef)] of the resolved handler followed through super().<hname>(...) calls"""
+    chain = []
+    mro = tt_mro(cls)
+    start = 0
+    while True:
+        k = next((c for c in mro[start:] if hname in c.__dict__ and inspect.isfunction(c.__dict__[hname])), None)
+        if k is None:
+            break
+        node = _fn_ast(k.__dict__[hname])
+        chain.append((k, node))
+        calls_super = node is not None and any(
+            isinstance(x, ast.Call) and isinstance(x.func, ast.Attribute) and x.func.attr == hname
+            and isinstance(x.func.value, ast.Call) and isinstance(x.func.value.func, ast.Name) and x.func.value.func.id == "super"
+            for x in ast.walk(node))
+        if not calls_super:
+            break
+        start = mro.index(k) + 1
+    return chain
+
+
+def handler_static(cls, hname):
+    """what the handler text does: flags set True, propagation calls, branch-freeness, unresolved self attributes"""
+    chain = handler_chain(cls, hname)
+    sets, fires, branchy, uses_args, unresolved = set(), set(), False, False, []
+    init_attrs = set()
+    for k in tt_mro(cls):
+        f = k.__dict__.get("__init__")
+        if inspect.isfunction(f):
+            node = _fn_ast(f)
+            if node is not None:
+                init_attrs |= _assigned_self_attrs(node.body)
+    real = heap.real_class(cls)
+    for k, node in chain:
+        if node is None:
+            return None
+        argnames = {a.arg for a in node.args.args[1:]}
+        for x in ast.walk(node):
+            if isinstance(x, (ast.If, ast.For, ast.While, ast.Try, ast.IfExp)):
+                branchy = True
+            if isinstance(x, ast.Assign) and isinstance(x.value, ast.Constant) and x.value.value is True:
+                for t in x.targets:
+                    if _is_self_attr(t):
+                        sets.add(t.attr)
+            if isinstance(x, ast.Call) and _is_self_attr(x.func) and x.func.attr.startswith("fire_"):
+                fires.add(x.func.attr)
+            if isinstance(x, ast.Name) and x.id in argnames and isinstance(x.ctx, ast.Load):
+                # passing the arguments on to super() is not a use
+                uses_args = uses_args or not _only_in_super_call(node, x)
+            if _is_self_attr(x) and isinstance(x.ctx, ast.Load):
+                if not hasattr(real, x.attr) and x.attr not in init_attrs:
+                    unresolved.append(x.attr)
+    return {"defined_in": "%s.%s" % (chain[0][0].__module__, chain[0][0].__name__) if chain else None,
+            "sets_true": sorted(sets), "fires": sorted(fires), "branch_free": not branchy, "uses_arguments": uses_args,
+            "unresolved_self_attributes": sorted(set(unresolved)),
+            "is_pass": bool(chain) and all(all(isinstance(s, ast.Pass) or (isinstance(s, ast.Expr) and isinstance(s.value, ast.Constant))
+                                                  for s in n.body) for _, n in chain)}
+
+
+def _only_in_super_call(fn_node, name_node):
+    for x in ast.walk(fn_node):
+        if isinstance(x, ast.Call) and isinstance(x.func, ast.Attribute) and isinstance(x.func.value, ast.Call) \
+                and isinstance(x.func.value.func, ast.Name) and x.func.value.func.id == "super":
+            if any(a is name_node for a in x.args):
+                return True
+    return False
+
+
+_SKIP_STATIC = {"__init__", "from_json", "json_factory", "to", "cuda", "cpu", "_apply", "__repr__", "__str__", "__eq__",
+                "handle_parameter_changed", "handle_model_changed", "fire_parameter_changed", "fire_model_changed",
+                "add_parameter_listener", "add_model_listener", "remove_parameter_listener", "remove_model_listener",
+                "parameters", "models", "register_parameter", "register_model", "__getattr__", "__setattr__", "__delattr__",
+                "clone", "detach", "__getitem__", "assign", "write_newick", "_write_newick", "as_newick", "update_traversals",
+                "update_leaf_heights"}
+
+
+def _is_mutable_tt(v):
+    from torchtree.core.abstractparameter import AbstractParameter
+    from torchtree.core.model import Model
+    return isinstance(v, (AbstractParameter, Model))
+
+
+def _is_helper(v):
+    """plain helper object whose methods run on behalf of its owner (torch Transform, nn.Module, ...)"""
+    if v is None or isinstance(v, (int, float, str, bool, bytes, torch.Tensor, torch.Size, type, dict, list, tuple, set)):
+        return False
+    if _is_mutable_tt(v) or callable(v) and not hasattr(v, "__dict__"):
+        return False
+    return isinstance(v, (torch.distributions.Transform, torch.nn.Module)) or type(v).__module__.startswith("torchtree")
+
+
+def _raw_get(obj, name):
+    """attribute value without recording and without running properties of proxies"""
+    rec = getattr(obj, "__dict__", {}).get("_vt_rec")
+    en = rec.enabled if rec is not None else None
+    if rec is not None:
+        rec.enabled = False
+    try:
+        return getattr(obj, name)
+    except Exception:
+        return _MISSING
+    finally:
+        if rec is not None:
+            rec.enabled = en
+
+
+_MISSING = object()
+
+
+def config_attr(dep, member):
+    """member of a collaborator that parameter updates cannot change: a plain data attribute (in the instance dict,
+    not a parameter/model, not callable) that no handler / cached-getter recomputation of its class writes"""
+    d = getattr(dep, "__dict__", {})
+    if member not in d:
+        return False
+    v = d[member]
+    if _is_mutable_tt(v) or callable(v):
+        return False
+    return member not in cache_attrs(type(dep)) and member not in dirty_flags(type(dep))
+
+
+def _expand_container(v, via):
+    """a Container is a pure aggregate: reading it means reading its elements"""
+    from torchtree.core.container import Container
+    if heap.real_class(v) is Container:
+        out = []
+        for e in list(v._parameters.values()) + list(v._models.values()):
+            out.extend(_expand_container(e, via + "<>"))
+        return out
+    return [(v, "*", via)]
+
+
+def static_reads(owner, depth=0, seen=None, root=None):
+    """over-approximation of what the methods of `owner` may read: [(object, member or '*', via)] for every
+    `self.<a>[.<member>]` in the method texts of its class whose value is a parameter / model (or a container /
+    helper object holding some)"""
+    seen = seen if seen is not None else set()
+    if id(owner) in seen or depth > 2:
+        return []
+    seen.add(id(owner))
+    root = owner if root is None else root
+    cls = heap.real_class(owner)
+    out = []
+    if cls.__module__.startswith("torchtree"):
+        fns = resolved_functions(cls)
+    else:
+        fns = {n: (cls, f, "method") for n, f in inspect.getmembers(cls, inspect.isfunction)
+               if n in ("_call", "_inverse", "log_abs_det_jacobian", "forward", "__call__")}
+    for name, (k, fn, kind) in fns.items():
+        if name in _SKIP_STATIC:
+            continue
+        node = _fn_ast(fn)
+        if node is None:
+            continue
+        parents = {}
+        for x in ast.walk(node):
+            for c in ast.iter_child_nodes(x):
+                parents[c] = x
+        for x in ast.walk(node):
+            if not (_is_self_attr(x) and isinstance(x.ctx, ast.Load)):
+                continue
+            v = _raw_get(owner, x.attr)
+            if v is _MISSING:
+                continue
+            par = parents.get(x)
+            member = par.attr if isinstance(par, ast.Attribute) and par.value is x else "*"
+            via = "%s.%s:self.%s" % (cls.__name__, name, x.attr)
+            if _is_mutable_tt(v):
+                if v is owner or v is root:
+                    continue
+                from torchtree.core.container import Container
+                if heap.real_class(v) is Container:
+                    out.extend(_expand_container(v, via))
+                else:
+                    out.append((v, member, via))
+            elif isinstance(v, (list, tuple, set)):
+                out.extend((e, "*", via + "[]") for e in v if _is_mutable_tt(e))
+            elif isinstance(v, dict):
+                out.extend((e, "*", via + "{}") for e in v.values() if _is_mutable_tt(e))
+            elif _is_helper(v):
+                out.extend(static_reads(v, depth + 1, seen, root))
+    return out
+
+
+# ================================================================================================
+# dynamic analysis of one per-class scenario with recording proxies
+# ================================================================================================
+class Analysis:
+    pass
+
+
+def _fire(dep):
+    from torchtree.core.abstractparameter import AbstractParameter
+    if isinstance(dep, AbstractParameter):
+        dep.fire_parameter_changed()
+    else:
+        dep.fire_model_changed(dep)
+
+
+def analyse(scn_name):
+    """build the scenario from the real classes, turn every named object into a recording proxy of itself and
+    record: which dependencies notify the object under test (and through which handler), what its compute methods
+    read (dynamic + static), its dirty flags and cached getters."""
+    s = build(scn_name)
+    if s.out is None:
+        raise Undecided("scenario %s has no object under test" % scn_name)
+    a = Analysis()
+    a.scn, a.out, a.out_name = s, s.out, s.out_name
+    a.cls = heap.real_class(s.out)
+    rec = a.rec = heap.Recorder()
+    for n, o in s.all_objects().items():
+        heap.instrument(o, n, rec)
+    out_label = s.out_name
+    # ---- dynamic read set: run every evaluation of the scenario, keep the reads made while `out` is executing
+    a.eval_errors = {}
+    mark = rec.mark()
+    for lab, fn in s.evals.items():
+        for f in dirty_flags(a.cls):       # make every cached getter recompute, so that its reads are seen
+            if f in s.out.__dict__:
+                object.__setattr__(s.out, f, True)
+        try:
+            with _rng_frozen(4242):
+                fn()
+        except Exception as e:
+            a.eval_errors[lab] = type(e).__name__ + ": " + str(e)[:120]
+    a.dynamic_reads = []   # (dep label, member)
+    for e in rec.since(mark):
+        if e[0] == "read" and e[1] == out_label and e[2] != out_label and e[3] not in heap.NON_VALUE:
+            a.dynamic_reads.append((e[2], e[3]))
+    # notifications that reached `out` while it was computing (lost by `flag = False` after the recomputation)
+    a.notified_during_eval = [e for e in rec.since(mark) if e[0] == "handle" and e[1] == out_label]
+    # ---- static over-approximation
+    rec.enabled = False
+    try:
+        a.static_reads = []
+        for obj, member, via in static_reads(s.out):
+            a.static_reads.append((rec.labels.get(id(obj)), obj, member, via))
+    finally:
+        rec.enabled = True
+    # ---- which dependencies notify `out`, through which handler
+    a.reach = {}
+    a.fire_errors = {}
+    deps = [(n, o) for n, o in s.all_objects().items() if o is not s.out]
+    anon = [(None, obj) for lab, obj, m, via in a.static_reads if lab is None]
+    for n, o in deps + anon:
+        key = n if n is not None else id(o)
+        if key in a.reach:
+            continue
+        mark = rec.mark()
+        try:
+            _fire(o)
+        except Exception as e:
+            a.fire_errors[key] = (type(e).__name__ + ": " + str(e)[:160], traceback.format_exc().strip().splitlines()[-3:])
+        a.reach[key] = sorted({h for h, src in rec.handled(mark, out_label)})
+    # ---- read set with classification
+    a.reads = OrderedDict()   # key -> dict(obj, members, sources)
+    objs = s.all_objects()
+    for lab, member in a.dynamic_reads:
+        dep = objs.get(lab)
+        if dep is not None and config_attr(dep, member):
+            continue
+        r = a.reads.setdefault(lab, {"obj": dep, "members": set(), "how": set(), "label": lab})
+        r["members"].add(member)
+        r["how"].add("dynamic")
+    a.config_reads = sorted({(lab, m) for lab, m in a.dynamic_reads if objs.get(lab) is not None and config_attr(objs[lab], m)})
+    for lab, obj, member, via in a.static_reads:
+        if member != "*" and config_attr(obj, member):
+            a.config_reads = sorted(set(a.config_reads) | {(lab or "<unnamed %s>" % type(obj).__name__, member)})
+            continue
+        if member in ("id", "_id"):
+            continue
+        key = lab if lab is not None else id(obj)
+        r = a.reads.setdefault(key, {"obj": obj, "members": set(), "how": set(), "label": lab or "<unnamed %s>" % heap.real_class(obj).__name__})
+        r["members"].add(member)
+        r["how"].add("static:" + via)
+    a.flags = dirty_flags(a.cls)
+    a.getters = find_cached_getters(a.cls)
+    return a
+
+
+def deps_via(a, hname):
+    """dependencies that the object reads and that notify it through handler `hname`"""
+    return [(k, r) for k, r in a.reads.items() if hname in a.reach.get(k, [])]
+
+
+def registered_via(a, hname):
+    return [k for k, hs in a.reach.items() if hname in hs]
+
+
+def _qual(cls):
+    cls = heap.real_class(cls)
+    return "%s.%s" % (cls.__module__, cls.__name__)
+
+
+# ---- witnesses: concrete histories on the real objects -----------------------------------------------
+def _witness_ops(s, target, rng, seed=777):
+    val = _perturb(s.target(target).tensor, s.domains[target], rng).tolist()
+    return [{"op": "eval", "what": "*", "seed": seed}, {"op": "assign", "target": target, "value": val}, {"op": "eval", "what": "*", "seed": seed}]
+
+
+def find_witness(scn_name, prefer=(), kinds=("stale", "update-raises", "raises"), want_eval_prefix=None):
+    """search a 3-step history (evaluate, one public assignment, evaluate) that fails on the REAL objects.
+    returns (ops, discrepancies) or (None, None)"""
+    s = build(scn_name)
+    rng = random.Random("witness/" + scn_name)
+    names = [n for n in list(s.params) + list(s.derived) if s.domains.get(n) not in (None, "fixed")]
+    names = [n for n in prefer if n in names] + [n for n in names if n not in prefer]
+    for n in names:
+        ops = _witness_ops(s, n, rng)
+        try:
+            found, _ = run_history(scn_name, ops)
+        except Exception:
+            continue
+        found = [f for f in found if f["kind"] in kinds and (want_eval_prefix is None or f.get("eval", want_eval_prefix).startswith(want_eval_prefix) or f["kind"] == "update-raises")]
+        if found:
+            return ops, found
+    return None, None
+
+
+def _params_behind(a, key):
+    """names of assignable base parameters whose change is signalled by dependency `key` (itself, or found by firing)"""
+    s = a.scn
+    if key in s.params or key in s.derived:
+        return [key]
+    dep = a.reads[key]["obj"] if key in a.reads else s.all_objects().get(key)
+    out = []
+    from torchtree.core.parametric import Parametric
+    if isinstance(dep, Parametric):
+        try:
+            ps = dep.parameters()
+        except Exception:
+            ps = []
+        for p in ps:
+            for n, q in s.params.items():
+                if q is p and n not in out:
+                    out.append(n)
+    return out
+
+
+def _refute(name_detail, scn_name, ops, found, extra=None):
+    w = {"graph": scn_name, "ops": ops, "observed": found[:3] if found else None}
+    if extra:
+        w.update(extra)
+    raise Refuted(name_detail, witness=w,
+                  replay={"kind": "custom", "contract": "C11", "func": "replay_history", "args": {"kind": "history", "graph": scn_name, "ops": ops}} if ops else None,
+                  confirmed=bool(found))
